@@ -208,3 +208,36 @@ if __name__ == '__main__':
     import sys, os, json
     sys.path.insert(0, os.environ.get('PYVC_REPO', '/repo'))
     print(json.dumps(seek(), indent=1, default=str))
+
+
+def replay_parse_cache_module(inputs, obl):
+    """the same session of texts, once as it is and once with the parse cache emptied before every text (every text parsed afresh):
+    the active module after every step, and the values of the variables at the end, must agree"""
+    from klongpy import KlongInterpreter
+    sessions = [
+        ['.module(:m)', 'a::1', '.module(0)', '.module(:m)', 'b::2', '.module(0)', 'a', 'b'],
+        ['.module(:p)', '.module(0)', '.module(:p)', 'v::7', '.module(0)', '.module(:p)', 'v'],
+        ['x1::5', '.module(:q)', 'x1::6', '.module(0)', 'x1', '.module(:q)', 'x1'],
+    ]
+    problems = []
+    for texts in sessions:
+        runs = []
+        for fresh_parse in (False, True):
+            k = KlongInterpreter()
+            trace = []
+            for t in texts:
+                if fresh_parse:
+                    k._parse_cache.clear()
+                try:
+                    r = k(t)
+                    r = repr(r.tolist() if hasattr(r, 'tolist') else r) if not callable(r) else 'fn'
+                except Exception as e:
+                    r = f"<{type(e).__name__}>"
+                trace.append((t, str(k._module), r))
+            runs.append(trace)
+        if runs[0] != runs[1]:
+            i = next(j for j in range(len(texts)) if runs[0][j] != runs[1][j])
+            problems.append(f"session {texts}: at step {i} ({texts[i]!r}) module/result is {runs[0][i][1:]} with the parse cache, {runs[1][i][1:]} when the text is parsed afresh")
+    if problems:
+        return dict(confirmed=True, detail='; '.join(problems[:2]))
+    return dict(confirmed=False, detail='sessions agree with and without the parse cache')
